@@ -38,13 +38,13 @@ def make_cfg(wd, invs, name="TraceProp.cfg"):
     return path
 
 
-def validate_chunk(wd, idx, hs, invs, probes=True):
+def validate_chunk(wd, idx, hs, invs, probes=True, module="TraceNet.tla"):
     hp = os.path.join(wd, f"hist{idx}.ndjson")
     tp = os.path.join(wd, f"trace{idx}.ndjson")
     write_histories(hp, hs)
     stats = run_harness(["net", "--in", hp, "--out", tp] + ([] if probes else ["--probes", "0"]))
     cfg = make_cfg(wd, invs, f"TraceProp{idx}.cfg")
-    res = run_tlc("TraceNet.tla", cfg, wd, env={"TRACE": tp}, workers=1, timeout=3000, heap="6g")
+    res = run_tlc(module, cfg, wd, env={"TRACE": tp}, workers=1, timeout=3000, heap="6g")
     res["trace"] = tp
     res["stats"] = stats
     if res["rejected"] or not res["completed"] or res["errors"]:
@@ -53,11 +53,11 @@ def validate_chunk(wd, idx, hs, invs, probes=True):
     return res
 
 
-def run_chunks(wd, histories, invs, chunk=400, par=4, probes=True):
+def run_chunks(wd, histories, invs, chunk=400, par=4, probes=True, module="TraceNet.tla"):
     chunks = [histories[i:i + chunk] for i in range(0, len(histories), chunk)]
     results = []
     with ThreadPoolExecutor(max_workers=par) as ex:
-        futs = [ex.submit(validate_chunk, wd, i, c, invs, probes) for i, c in enumerate(chunks)]
+        futs = [ex.submit(validate_chunk, wd, i, c, invs, probes, module) for i, c in enumerate(chunks)]
         for f in futs:
             results.append(f.result())
     return results
